@@ -884,14 +884,19 @@ class HandshakeRig:
             C["Base"].loop = loop_obs
             # ---- the simulator: real handlers, real structure, snapshot loaded, socket never opened
             self.who = "sim"
-            sim = GeckoSimulator.__new__(GeckoSimulator)
+            import builtins
+            real_print = builtins.print
+            builtins.print = lambda *a, **k: None          # the simulator chats on stdout
+            try:
+                sim = GeckoSimulator()                     # the real constructor; only its socket is replaced by the stepped rig socket
+            finally:
+                builtins.print = real_print
             smock = MockSock(clk)
             smock.on_send = sim_send
             sim._socket = C["RigSocket"](self, smock)
             sim._socket._exit_event = StepEvent()
             sim._install_standard_handlers()
-            sim.structure = GeckoStructure(sim._on_set_value)
-            sim.snapshot, sim._reliability, sim._do_rferr, sim._send_structure_change, sim._clients = None, 1.0, False, False, []
+            sim._reliability = 1.0
             sim.set_snapshot(snap)
             # ---- the client
             self.who = "client"
